@@ -220,6 +220,86 @@ Definition as_trace_level (l : lv) : option lv := assoc_lv l gen_level_as_trace.
 Definition as_log_filter (f : option lv) : option (option lv) := assoc_olv f gen_filter_as_log.
 Definition as_trace_filter (f : option lv) : option (option lv) := assoc_olv f gen_filter_as_trace.
 
+(** * The third parser of level names: tracing-attributes' `impl Parse for Level`
+    (`#[instrument(level = ..)]`, `err(level = ..)`, `ret(level = ..)`), composed with `ToTokens`.
+    String literals: the scrutinee transformations (none in the committed source) then the name arms.
+    Case mappings are byte-level on UTF-8; the Unicode ones are *partial*: ASCII plus the code points whose
+    full case mapping contains an ASCII letter of a level name (enough to exhibit a wrongly accepted string). *)
+Definition upper (b : N) : N := if (97 <=? b) && (b <=? 122) then b - 32 else b.
+Fixpoint uni_upper (s : list N) : list N :=
+  match s with
+  | [] => []
+  | a :: r =>
+      match r with
+      | [] => [upper a]
+      | b :: r' =>
+          if (a =? 196) && (b =? 177) then 73 :: uni_upper r'            (* U+0131 dotless i -> I *)
+          else if (a =? 197) && (b =? 191) then 83 :: uni_upper r'       (* U+017F long s    -> S *)
+          else if (a =? 195) && (b =? 159) then 83 :: 83 :: uni_upper r' (* U+00DF sharp s   -> SS *)
+          else upper a :: uni_upper r
+      end
+  end.
+Fixpoint uni_lower (s : list N) : list N :=
+  match s with
+  | [] => []
+  | a :: r =>
+      match r with
+      | [] => [lower a]
+      | b :: l =>
+          if (a =? 196) && (b =? 176) then 105 :: 204 :: 135 :: uni_lower l   (* U+0130 -> i + U+0307 *)
+          else match l with
+               | c :: r' =>
+                   if (a =? 226) && (b =? 132) && (c =? 170) then 107 :: uni_lower r' (* U+212A Kelvin sign -> k *)
+                   else lower a :: uni_lower r
+               | [] => lower a :: uni_lower r
+               end
+      end
+  end.
+Definition is_ws (b : N) : bool := ((9 <=? b) && (b <=? 13)) || (b =? 32).
+Fixpoint trim_start (s : list N) : list N :=
+  match s with b :: r => if is_ws b then trim_start r else s | [] => [] end.
+Definition trim (s : list N) : list N := rev (trim_start (rev (trim_start s))).
+Definition apply_xf (x : strxf) (s : list N) : list N :=
+  match x with
+  | XfAsciiLower => map lower s
+  | XfAsciiUpper => map upper s
+  | XfUniLower => uni_lower s
+  | XfUniUpper => uni_upper s
+  | XfTrim => trim s
+  end.
+(** `level = "<s>"` *)
+Definition attr_parse_str (s : list N) : option lv :=
+  first_name gen_attr_name_arms (fold_left (fun acc x => apply_xf x acc) gen_attr_scrutinee s).
+(** `level = <n>`: [n] is the value of the integer literal (syn's `LitInt::base10_parse`; out of range is an error) *)
+Definition attr_parse_int (n : N) : option lv :=
+  if n <=? gen_attr_int_max then assocN n gen_attr_int_arms else None.
+
+(** * Who publishes the maximum level: callsite.rs `rebuild_interest` folds the hints of the live
+    dispatchers (a collector without a hint counts as [gen_pub_nohint]) with the hand-written
+    LevelFilter comparison named in the source, then calls `set_max`. *)
+Definition hint_of (h : option (option lv)) : option lv := match h with Some f => f | None => gen_pub_nohint end.
+Definition pub_step (acc : option lv) (h : option (option lv)) : option (option lv) :=
+  let hint := hint_of h in
+  match gen_pub_update with
+  | [(r, hint_left)] =>
+      match eval_op (rel_op r) (VF (if hint_left then hint else acc)) (VF (if hint_left then acc else hint)) with
+      | Some (RB true) => Some hint
+      | Some (RB false) => Some acc
+      | _ => None
+      end
+  | _ => None
+  end.
+Fixpoint pub_fold (acc : option lv) (hs : list (option (option lv))) : option (option lv) :=
+  match hs with
+  | [] => Some acc
+  | h :: r => match pub_step acc h with Some a => pub_fold a r | None => None end
+  end.
+(** what `LevelFilter::current()` returns after a rebuild with live dispatchers [hs] *)
+Definition published (hs : list (option (option lv))) : option (option lv) :=
+  match pub_fold gen_pub_init hs with Some m => current_after m | None => None end.
+Definition spec_max (hs : list (option (option lv))) : N :=
+  fold_left N.max (map (fun h => rank (VF (match h with Some f => f | None => Some Trace end))) hs) 0.
+
 (** * Encodings used by the correspondence driver (values as small numbers) *)
 Definition enc_value (v : value) : N := match v with VL l => rank_lv l | VF f => 10 + rank (VF f) end.
 Definition enc_cmp (c : comparison) : N := match c with Lt => 0 | Eq => 1 | Gt => 2 end.
